@@ -174,7 +174,8 @@ def force(v):
 
 
 GROUPS = [guard(lwl_post), guard(ll_post), guard(lse_of_lwl), guard(row_local), guard(definedness)]
-SHARED = []
+SHARED = [("C17", "set_variances", ["C17.set.variances"]), ("C17", "set_thresholds", ["C17.set.thresholds"]), ("C17", "set_weights", ["C17.set.weights"]),
+          ("C17", "gnorms_lazy", ["C17.gnorms.lazy"]), ("C17", "init_inv", ["C17.init"]), ("C02", "estep_post", ["C02.estep.log_likelihood"])]
 
 
 def ctrl_perturbed_spec(ctx):
@@ -197,10 +198,11 @@ def ctrl_perturbed_spec(ctx):
 
 
 CONTROLS = [ctrl_perturbed_spec]
-REPLAY = [("C01.lwl", "gmm_repro.py", "lwl", {}), ("C01.reduce", "gmm_repro.py", "ll", {}), ("C01.ll", "gmm_repro.py", "ll", {}),
+REPLAY = [("C17", "gmm_repro.py", "history", {}), ("C02", "gmm_repro.py", "estep", {}), ("C01.lwl", "gmm_repro.py", "lwl", {}), ("C01.reduce", "gmm_repro.py", "ll", {}), ("C01.ll", "gmm_repro.py", "ll", {}),
           ("C01.row-local", "gmm_repro.py", "ll", {}), ("C01.lse-of-lwl", "gmm_repro.py", "ll", {}), ("C01.def", "gmm_repro.py", "tail", {})]
 TRUSTED = ["np.logaddexp.reduce(a, axis, initial=-inf) == log Σ exp along axis, computed stably (DESIGN §3)",
            "da.reduction(x, chunk, aggregate, axis=0) == aggregate over the concatenated chunk results of an arbitrary consecutive partition",
            "a Gaussian density integrates to one (mathematics; the oracle is the textbook density)"]
 ASSUMPTIONS = ["Valid(m): weights > 0, variances > 0, variance floors > 0 (preconditions of the property)",
                "blocks of a Dask partition are non-empty (an empty block contributes -inf, absorbed by log-add-exp)"]
+XCHECK = ['gmm']
